@@ -179,10 +179,31 @@ func c01Entry(c *Ctx, fn *ssa.Function, kind string) {
 	if kind == "oci" {
 		q := regexp.QuoteMeta
 		pd := q(paramWhere(fn, isNamed("ocispec.Descriptor")))
-		c.requireOnExits(pre, fn, sum.Exits, []Need{
-			{Name: "descriptor-equal", What: "content.Equal(signed payload target, desc parameter) == true (or the three field equalities)",
-				Re: regexp.MustCompile(`^T\(call:oras/content\.Equal\((` + q(ta) + `,` + pd + `|` + pd + `,` + q(ta) + `)\)\)$`)},
-		})
+		reEq := regexp.MustCompile(`^T\(call:oras/content\.Equal\((` + q(ta) + `,` + pd + `|` + pd + `,` + q(ta) + `)\)\)$`)
+		pdRaw := paramWhere(fn, isNamed("ocispec.Descriptor"))
+		// content.Equal compares exactly media type, digest and size: the three field equalities are the same check
+		var viaFields []*ExitSum
+		var viaCall []*ExitSum
+		for _, ex := range sum.Exits {
+			three := true
+			for _, f := range []string{"MediaType", "Digest", "Size"} {
+				if !labelHas(ex.Checked, "EQ("+ta+"."+f+","+pdRaw+"."+f+")") {
+					three = false
+				}
+			}
+			if three {
+				viaFields = append(viaFields, ex)
+			} else {
+				viaCall = append(viaCall, ex)
+			}
+		}
+		if len(viaFields) > 0 && len(viaCall) == 0 {
+			c.OK(pre+"/descriptor-equal", "must-check: every success-capable exit of "+fnName(fn)+" is reachable only through the passing edge of: media type, digest and size of the signed payload target each equal to those of the desc parameter (what content.Equal compares)", w.FnPos(fn))
+		} else {
+			c.requireOnExits(pre, fn, viaCall, []Need{
+				{Name: "descriptor-equal", What: "content.Equal(signed payload target, desc parameter) == true (or the three field equalities)", Re: reEq},
+			})
+		}
 	} else {
 		c01BlobBinding(c, fn, fi, sum, ta, outcomeDesc)
 	}
